@@ -6478,6 +6478,8 @@ class Path(Shape, MutableSequence):
             p += subpath
         self._segments = p._segments
         self._segments[0].start = prepoint
+        self._length = None
+        self._lengths = None
         return self
 
     def subpath(self, index):
@@ -7731,6 +7733,8 @@ class Subpath:
         if isinstance(other, Matrix):
             for e in self:
                 e *= other
+            self._path._length = None
+            self._path._lengths = None
         return self
 
     def __mul__(self, other):
@@ -7866,6 +7870,8 @@ class Subpath:
         end = self.index_to_path_index(end)
         self._path._validate_connection(start - 1, prefer_second=True)
         self._path._validate_connection(end)
+        self._path._length = None
+        self._path._lengths = None
 
     def reverse(self):
         size = len(self)
